@@ -129,6 +129,12 @@ LAUNCH_DIRECTED: list[tuple[str, list[bool], list[tuple[str, int]]]] = [
         [P(0), P(0), P(0), P(0), W(0), W(0), W(0), W(0), P(0), P(0), S(0), W(0), P(1), P(1), P(1), P(1), P(1), P(2), P(2), P(2), P(2), W(1), W(1), W(1), W(1), P(2), P(2), W(0), W(0)],
     ),
     (
+        "gc-pass-races-a-launch",
+        [False, True, False],
+        [P(0), P(0), P(0), P(0), W(0), W(0), W(0), W(0), P(0), P(0), S(0), W(0), W(0), P(1), P(1), P(2), P(2), P(2), P(2), W(1), W(1), W(1), W(1), P(2), P(2),
+         P(1), P(1), P(1), P(1), P(2), P(2), P(2), P(2), W(1), W(1), W(1), W(1), P(2), P(2), P(2)],
+    ),
+    (
         "gc-skips-held-lock",
         [False, True],
         [P(0), P(0), P(0), P(1), P(1), P(1), P(0), W(0), W(0), W(0), W(0), P(0), P(0)],
@@ -223,6 +229,21 @@ def _gen_launch_schedule(rng: Any, run: Any, n: int) -> list[tuple[str, int]]:
         if all(e.done for e in run.procs) and all(w.entity.done or w.entity.label == "accepting" for w in run.workers) and rng.random() < 0.25:
             break
     return sch
+
+
+def replay(ctx: Any, data: dict[str, Any]) -> None:
+    """Re-run exactly the recorded schedule (real code + oracle + model) instead of the whole sweep."""
+    r = data.get("replay") or {}
+    if "schedule" not in r:
+        run(ctx)  # an obligations-only record: nothing narrower to replay
+        return
+    sch = [tuple(a) for a in r["schedule"]]
+    kinds = r.get("kinds", r.get("kinds(False=launch,True=gc)"))
+    if kinds is not None:
+        ctx.c33_only = ("launcher", r.get("scenario", "replay"), list(kinds), sch)
+    else:
+        ctx.c33_only = ("accept", r.get("scenario", "replay"), r.get("idle_timeout"), r.get("max_connections"), sch)
+    run(ctx)
 
 
 def run(ctx: Any) -> None:
@@ -328,9 +349,11 @@ def run(ctx: Any) -> None:
         a_cases.append((inp, _coq_trace(tr)))
         a_meta.append({"scenario": name, "idle_timeout": idle, "max_connections": maxconn, "schedule": [list(a) for a in sch], "impl_trace": tr})
 
-    for name, idle, maxconn, sch in ACCEPT_DIRECTED:
+    only = getattr(ctx, "c33_only", None)  # set by replay(): exactly one recorded scenario
+    accept_directed = ACCEPT_DIRECTED if only is None else ([only[1:]] if only[0] == "accept" else [])
+    for name, idle, maxconn, sch in accept_directed:
         one_accept(name, idle, maxconn, sch)
-    n_rand = 110 if quick else 1500
+    n_rand = 0 if only is not None else (110 if quick else 800)
     for i in range(n_rand):
         idle = ctx.rng.choice([None, 1, 3, 5, 5, 70])
         maxconn = ctx.rng.choice([None, None, 1, 2])
@@ -340,7 +363,9 @@ def run(ctx: Any) -> None:
 
     ctx.log(f"accept loop: {len(a_cases)} controlled runs of the real code done")
     header = "From Coq Require Import List NArith Bool.\nFrom VGI Require Import M_Accept Corr.\nImport ListNotations.\nOpen Scope N_scope."
-    if a_cases:
+    if only is not None and only[0] != "accept":
+        pass
+    elif a_cases:
         ok, bad, clog = ctx.coq_mismatches(
             header, "run_case", "list_eqb (list_eqb N.eqb)", a_cases,
             "(bool * bool) * (option N * option N) * N * list (N * N)", "list (list N)", shard=40,
@@ -368,6 +393,13 @@ def run(ctx: Any) -> None:
             flock_ok = False
         if info["max_alive"] > 1 or any(s["alive_before"] for s in info["spawns"]):
             ctx.violation("second-worker-spawned-while-one-alive", "two workers of one command hash were alive at once", replay)
+        if info["live_unreachable"]:
+            ctx.violation(
+                "live-worker-socket-unlinked",
+                "the socket path of a worker whose listener is open no longer names that worker (someone unlinked/replaced it): "
+                "the worker is alive but unreachable, the next launch spawns a second one",
+                replay,
+            )
         if any(not r["accepting_at_decision"] for r in info["returns"]):
             ctx.violation("returned-path-not-accepting", "launch() returned a socket path on which no worker was accepting at the deciding moment", replay)
 
@@ -396,15 +428,18 @@ def run(ctx: Any) -> None:
         l_meta.append({"scenario": name, "kinds": kinds, "schedule": [list(a) for a in sch], "impl_trace": tr})
         return tr, info
 
-    for name, kinds, sch in LAUNCH_DIRECTED:
+    launch_directed = LAUNCH_DIRECTED if only is None else ([only[1:]] if only[0] == "launcher" else [])
+    for name, kinds, sch in launch_directed:
         one_launch(name, kinds, sch)
     kinds_pool = [[False, False], [False, False, False], [False, True, False], [False, False, True, False], [True, False, False]]
-    for i in range(36 if quick else 500):
+    for i in range(0 if only is not None else (36 if quick else 300)):
         one_launch(f"random-{i}", ctx.rng.choice(kinds_pool), None, ctx.rng.randrange(25, 80))
     ctx.sample({"half": "launcher", "scenario": LAUNCH_DIRECTED[0][0], "kinds": LAUNCH_DIRECTED[0][1], "schedule": [list(a) for a in LAUNCH_DIRECTED[0][2]]})
     ctx.log(f"launcher: {len(l_cases)} controlled runs of the real code done")
     ctx.obligation("env:flock-mutual-exclusion", "environment", flock_ok, "the real filelock granted the per-hash lock to two holders at once")
-    if l_cases:
+    if only is not None and only[0] != "launcher":
+        pass
+    elif l_cases:
         ok, bad, clog = ctx.coq_mismatches(header, "run_case_l", "list_eqb (list_eqb N.eqb)", l_cases, "list bool * list (N * N)", "list (list N)", shard=30)
         ctx.count("model_cases", len(l_cases))
         ctx.obligation("correspondence:M_Accept.run_case_l", "correspondence", ok and not bad, clog if not ok else f"{len(bad)} of {len(l_cases)} schedules disagree")
@@ -418,7 +453,7 @@ def run(ctx: Any) -> None:
     # observation (not part of the verdict): on a filesystem that reuses inode numbers the exiting worker's identity
     # check passes for its successor's socket
     tmp = tempfile.gettempdir()
-    if os.path.realpath(tmp) != os.path.realpath(base):
+    if only is None and os.path.realpath(tmp) != os.path.realpath(base):
         name, kinds, sch = LAUNCH_DIRECTED[1]
         try:
             tr, info = hs.run_launcher(lm, tm, kinds, sch, tmp)
